@@ -10,6 +10,7 @@ import (
 	"os"
 	"path/filepath"
 	"strings"
+	"time"
 	"verifharness/internal/rng"
 )
 
@@ -96,13 +97,23 @@ func e2eCase(r *rng.R, dir string) []string {
 	p := float64(prcnt) / 100.0
 	var cut uint64
 	cutRes := ""
-	if protect(func() {
-		if strategy == "median" {
-			cut = profiler.CutOffMedian(oc.Mem, start, end, p)
-		} else {
-			cut = profiler.CutOffAbsoluteValue(oc.Mem, start, end, p)
-		}
+	pend("e2e cut-off %s p=%d range=%04x-%04x", strategy, prcnt, start, end)
+	crashed := false
+	if !withDeadline(func() {
+		crashed = protect(func() {
+			if strategy == "median" {
+				cut = profiler.CutOffMedian(oc.Mem, start, end, p)
+			} else {
+				cut = profiler.CutOffAbsoluteValue(oc.Mem, start, end, p)
+			}
+		})
 	}) {
+		// the cut-off computation does not come back: reported like a crash of it; the stream ends here (the stuck
+		// goroutine cannot be stopped, the process has to go)
+		crashed, abortStream = true, true
+		count("e2e.hang.cutoff")
+	}
+	if crashed {
 		cutRes = "!"
 	} else {
 		cutRes = fmt.Sprintf("%d", cut)
@@ -168,7 +179,14 @@ func e2eCase(r *rng.R, dir string) []string {
 	args = append(args, trapArgs...)
 	args = append(args, cfgArgs...)
 	var cerr error
-	_, panicked := captureStdout(func() { cerr = commands.ProfileCommand(args) })
+	panicked := false
+	pend("e2e profile %s (program %s at %04x)", strings.Join(args[2:], " "), hexOf(code), start)
+	if abortStream {
+		panicked = true // the cut-off computation hangs on this input: the command would hang in the same place
+	} else if !withDeadline(func() { _, panicked = captureStdout(func() { cerr = commands.ProfileCommand(args) }) }) {
+		panicked, abortStream = true, true
+		count("e2e.hang.profile")
+	}
 	out := "!"
 	if !panicked && cerr == nil {
 		data, rerr := os.ReadFile(outFile)
@@ -184,7 +202,7 @@ func e2eCase(r *rng.R, dir string) []string {
 	lines = append(lines, fmt.Sprintf("report %s %d %04x | %s | %s | %s => %s %s", strategy, prcnt, start, strings.Join(raws, ","), hex.EncodeToString(vals), labReq, cutRes, out))
 
 	// ---- a dump specification that must be rejected before anything runs
-	if trap {
+	if trap && !abortStream {
 		bad := []string{"0:0", "65535:2", "abc", "12:", ":12", "70000:1", "1:70000", "0x10:4", "16:4:1", "-1:5", "65000:1000"}[r.Intn(11)]
 		for _, cmd := range []string{"profile", "profilenoout", "run"} {
 			os.Remove(marker)
@@ -209,6 +227,26 @@ func e2eCase(r *rng.R, dir string) []string {
 	return lines
 }
 
+// abortStream: a call into the repository's code did not come back within the deadline; the case is reported as
+// "no result" and the stream stops after it
+var abortStream = false
+
+// withDeadline runs f in a goroutine of its own and reports whether it came back within 20 seconds (the longest of
+// these calls takes milliseconds)
+func withDeadline(f func()) bool {
+	done := make(chan struct{})
+	go func() {
+		defer close(done)
+		f()
+	}()
+	select {
+	case <-done:
+		return true
+	case <-time.After(20 * time.Second):
+		return false
+	}
+}
+
 func profileStream(seed uint64, n int) {
 	r := rng.New(seed + 1420)
 	dir := tmpDir()
@@ -216,6 +254,9 @@ func profileStream(seed uint64, n int) {
 	for i := 0; i < n; i++ {
 		for _, l := range e2eCase(r, dir) {
 			emit(l)
+		}
+		if abortStream {
+			break
 		}
 	}
 }
